@@ -64,6 +64,52 @@ def _jit(rng: random.Random) -> List[Fraction]:
     return [Fraction(rng.choice([-2, -1, 0, 1, 2]), 10**8) for _ in range(3)]
 
 
+HALF_CELL = [Fraction(5, 10**8), Fraction(12345675, 10**8), Fraction(100000015, 10**8), Fraction(-15, 10**8)]
+
+
+def _scene_origin(rng: random.Random) -> Tuple[List[Fraction], str]:
+    """Origin of a scene: the lattice itself, a geo-referenced one (round 2), or one whose nodes sit at odd multiples
+    of TOL/2 (0.00000005, 0.12345675, 1.00000015, -0.00000015) in some coordinates, so that the members of a cluster
+    (jitter of +-1e-8, +-2e-8) lie on both sides of the boundaries of a TOL-sized grid (round 3)."""
+    r = rng.random()
+    if r < 0.15:
+        return [Fraction(500000), Fraction(4200000), Fraction(100)], "far"
+    if r < 0.40:
+        return [rng.choice(HALF_CELL) if rng.random() < 0.7 else Fraction(0) for _ in range(3)], "halfcell"
+    return [Fraction(0)] * 3, ""
+
+
+def gen_chain(rng: random.Random) -> dict:
+    """A column of 2..4 cells built the usual way: every next operation is created on the top Face *object* of the
+    previous one (shared Point objects, shared patch name of that face), plus 0..2 free-standing neighbours; sides carry
+    slave names, so that corners on a shared face often have different slave-patch sets in the two operations."""
+    n = rng.randint(2, 4)
+    origin, tag = _scene_origin(rng)
+    pool = rng.sample(NAMES, rng.randint(2, 3))
+    ops = []
+    for k in range(n):
+        pts = [[Fraction(float(Fraction(CUBE[c][a] + (k if a == 2 else 0)) + origin[a])) for a in range(3)] for c in range(8)]
+        patches = {side: rng.choice(pool) for side in ["front", "right", "back", "left"] if rng.random() < 0.45}
+        if rng.random() < 0.3:
+            patches["top"] = rng.choice(pool)  # the face shared with the next operation (its bottom)
+        if k == 0 and rng.random() < 0.3:
+            patches["bottom"] = rng.choice(pool)
+        ops.append({"points": [[str(c) for c in p] for p in pts], "patches": patches, "on_top_of": k - 1 if k > 0 else None})
+    for _ in range(rng.randint(0, 2)):
+        k = rng.randrange(n)
+        dx = rng.choice([-1, 1])
+        pts = [[Fraction(float(Fraction(CUBE[c][a] + (k if a == 2 else 0) + (dx if a == 0 else 0)) + origin[a] + j)) for a, j in zip(range(3), _jit(rng))] for c in range(8)]
+        patches = {side: rng.choice(NAMES) for side in SIDES if rng.random() < 0.4}
+        ops.append({"points": [[str(c) for c in p] for p in pts], "patches": patches, "on_top_of": None})
+    order = list(range(len(ops)))
+    if rng.random() < 0.5:
+        # any insertion order (the operation objects exist before they are added)
+        rng.shuffle(order)
+    masters = [x for x in NAMES if x not in pool]
+    merged = [[rng.choice(masters), sl] for sl in pool if rng.random() < 0.8]
+    return {"kind": "asm", "ops": ops, "merged": merged, "order": order, "chain": True, "tag": tag}
+
+
 def gen_asm(rng: random.Random, n_ops: Optional[int] = None) -> dict:
     """Cells of a small lattice (random renumbering of the corners, so that any sides touch), jitter inside the
     tolerance at shared corners, some cells displaced by 1e-5 (= 100 TOL: near, but a different point), some 'wild'
@@ -71,7 +117,7 @@ def gen_asm(rng: random.Random, n_ops: Optional[int] = None) -> dict:
     n = n_ops or rng.randint(1, 7)
     # 15%: a geo-referenced scene (UTM-like coordinates): neighbouring nodes are 1 apart at |x| ~ 5e5, |y| ~ 4.2e6,
     # i.e. much closer than 1e-5 * |coordinate| (a relative tolerance would merge them), still >= 1e7 TOL apart
-    origin = [Fraction(500000), Fraction(4200000), Fraction(100)] if rng.random() < 0.15 else [Fraction(0)] * 3
+    origin, tag = _scene_origin(rng)
     dims = rng.choice([(2, 1, 1), (2, 2, 1), (3, 1, 1), (2, 2, 2), (3, 2, 1)])
     cells = [(i, j, k) for i in range(dims[0]) for j in range(dims[1]) for k in range(dims[2])]
     rng.shuffle(cells)
@@ -100,15 +146,15 @@ def gen_asm(rng: random.Random, n_ops: Optional[int] = None) -> dict:
     for _ in range(rng.choice([0, 1, 1, 2, 2, 3])):
         m, s = rng.sample(names, 2)
         merged.append([m, s])
-    return {"kind": "asm", "ops": ops, "merged": merged, "far": origin[0] != 0}
+    return {"kind": "asm", "ops": ops, "merged": merged, "far": tag == "far", "tag": tag}
 
 
 def gen_hist(rng: random.Random) -> dict:
     """A history of Mesh calls: 2..4 cells in a row whose interfaces carry master/slave names, operations added
     and pairs merged at different times, the slave set queried in between, clear() and re-assembly."""
     n = rng.randint(2, 4)
-    far = rng.random() < 0.15
-    origin = [Fraction(500000), Fraction(4200000), Fraction(100)] if far else [Fraction(0)] * 3
+    origin, tag = _scene_origin(rng)
+    far = tag == "far"
     ops = []
     pairs = []
     for o in range(n):
@@ -147,7 +193,7 @@ def gen_hist(rng: random.Random) -> dict:
         if rng.random() < 0.3:
             steps.append(["query", rng.choice(["s1", "s2", "pa"])])
         steps.append(["assemble"])
-    return {"kind": "hist", "ops": ops, "steps": steps, "far": far}
+    return {"kind": "hist", "ops": ops, "steps": steps, "far": far, "tag": tag}
 
 
 def gen_asm_dense(rng: random.Random) -> dict:
@@ -156,16 +202,17 @@ def gen_asm_dense(rng: random.Random) -> dict:
     n = rng.randint(2, 4)
     pool = rng.sample(NAMES, rng.randint(2, 3))
     cells = [(i, j, 0) for i in range(2) for j in range(2)]
+    origin, tag = _scene_origin(rng)
     ops = []
     for o in range(n):
         rot = rng.choice(ROTS) if rng.random() < 0.5 else list(range(8))
-        pts = [[Fraction(cells[o][a] + CUBE[rot[c]][a]) + j for a, j in zip(range(3), _jit(rng))] for c in range(8)]
+        pts = [[Fraction(float(Fraction(cells[o][a] + CUBE[rot[c]][a]) + j + origin[a])) for a, j in zip(range(3), _jit(rng))] for c in range(8)]
         patches = {side: rng.choice(pool) for side in SIDES if rng.random() < 0.85}
         ops.append({"points": [[str(c) for c in p] for p in pts], "patches": patches})
     masters = [x for x in NAMES if x not in pool]
     merged = [[rng.choice(masters), s] for s in pool]
     rng.shuffle(merged)
-    return {"kind": "asm", "ops": ops, "merged": merged}
+    return {"kind": "asm", "ops": ops, "merged": merged, "tag": tag}
 
 
 def gen_adds(rng: random.Random) -> dict:
@@ -197,6 +244,9 @@ class C05(core.Check):
     props_module = "CBV.Props.C05"
     workers = 1
     rule = (
+        "chain: columns of 2..4 cells where every next operation is built on the top Face object of the previous one "
+        "(shared Point objects) plus free neighbours, slave names on the sides; 25% of all scenes shifted so that nodes sit at "
+        "odd multiples of TOL/2 (coincident corners straddle the boundaries of a TOL-sized grid). "
         "hist: histories of Mesh calls on 2..4 cells in a row (operations added and pairs merged in 2..3 phases, is_slave "
         "queries, clear() and re-assembly; every assembly compared and judged with the pairs declared so far); 15% of the asm "
         "and hist cases geo-referenced (origin 5e5 / 4.2e6 / 100, nodes 1 apart). "
@@ -226,6 +276,7 @@ class C05(core.Check):
         cases: List[dict] = [gen_asm(rng) for _ in range(n)]
         cases += [gen_asm_dense(rng) for _ in range(n // 5)]
         cases += [gen_hist(rng) for _ in range(n // 4)]
+        cases += [gen_chain(rng) for _ in range(n // 5)]
         cases += [gen_adds(rng) for _ in range(n // 3)]
         for what in ["cyl-cyl", "cyl-ring", "box-grid", "hemi", "cyl-merged"]:
             for order in (False, True):
@@ -316,10 +367,17 @@ class C05(core.Check):
             merged = case["merged"]
             for o in case["ops"]:
                 pts = [[float(Fraction(x)) for x in p] for p in o["points"]]
-                op = cb.Loft(cb.Face(pts[:4]), cb.Face(pts[4:]))
+                if o.get("on_top_of") is not None:
+                    # the usual chaining: built on the top Face object of the previous operation (shared Points)
+                    op = cb.Loft(ents[o["on_top_of"]].top_face, cb.Face(pts[4:]))
+                else:
+                    op = cb.Loft(cb.Face(pts[:4]), cb.Face(pts[4:]))
+                ents.append(op)
+            for o, op in zip(case["ops"], ents):
                 for side, name in o["patches"].items():
                     op.set_patch(side, name)
-                ents.append(op)
+            if "order" in case:
+                ents = [ents[i] for i in case["order"]]
         for e in ents:
             mesh.add(e)
         for m, s in merged:
@@ -581,13 +639,17 @@ class C05(core.Check):
     def classify(self, case, impl):
         if case["kind"] == "hist":
             n_merge_late = sum(1 for i, st in enumerate(case["steps"]) if st[0] == "merge" and any(x[0] == "assemble" for x in case["steps"][:i]))
-            return f"hist:assemblies={sum(1 for st in case['steps'] if st[0] == 'assemble')}:late-merges={min(n_merge_late, 2)}" + (":far" if case.get("far") else "")
+            return f"hist:assemblies={sum(1 for st in case['steps'] if st[0] == 'assemble')}:late-merges={min(n_merge_late, 2)}" + (":" + case["tag"] if case.get("tag") else "")
         if case["kind"] != "asm":
             return case["kind"] + (":" + case["what"] if "what" in case else "")
         nd = sum(1 for d in impl.get("D", []) if d[1])
         multi = sum(1 for d in impl.get("D", []) if len(d[1]) > 1)
+        if case.get("chain"):
+            return "asm:chain-on-shared-faces" + (":" + case["tag"] if case.get("tag") else "")
         if case.get("far"):
             return f"asm:far-origin:merged={len(case['merged'])}"
+        if case.get("tag") == "halfcell":
+            return f"asm:halfcell:merged={min(len(case['merged']), 1)}"
         return f"asm:ops={len(case['ops'])}:merged={len(case['merged'])}:slavecopies={'0' if nd == 0 else '1+'}:multi={'y' if multi else 'n'}"
 
 
